@@ -260,6 +260,36 @@ SKIP = {
 }
 
 
+def _attempt(at, timeout_ms, seed):
+    kind = at[0]
+    if kind == 'const':
+        return {'status': 'unsat' if at[1] else 'sat', 'secs': 0.0, 'model': {}, 'encoding': 'const'}
+    if kind == 'chain':
+        _, hyps, steps = at
+        lem = []
+        tot = 0.0
+        r = None
+        for (g, hn) in steps:
+            r = prove(hyps + lem, g, hints=hn, timeout_ms=timeout_ms, seed=seed)
+            tot += r['secs']
+            if r['status'] != 'unsat' or not r.get('defined_ok', True):
+                break
+            lem.append(g)
+        r = dict(r)
+        r['secs'] = tot
+        return r
+    if kind == 'ident':
+        _, hyps, lhs, rhs = at
+        r = prove_identity(hyps, lhs, rhs, timeout_ms=timeout_ms, seed=seed)
+        if r['status'] != 'unsat':
+            r2 = prove(hyps, lhs == rhs, timeout_ms=min(timeout_ms, 20000), seed=seed)
+            if r2['status'] in ('unsat', 'sat', 'sat?') or r['status'] == 'unknown':
+                r = r2
+        return r
+    _, hyps, goal, hints = at
+    return prove(hyps, goal, hints=hints, timeout_ms=timeout_ms, seed=seed)
+
+
 def run_ob(args):
     """worker: decide one obligation for one family.  Returns a plain dict."""
     fam, name, timeout_ms, seed = args
@@ -281,32 +311,10 @@ def run_ob(args):
             return {'fam': fam, 'name': name, 'status': 'n/a', 'secs': 0.0, 'tried': []}
         for at in attempts:
             kind = at[0]
-            if kind == 'const':
-                st = 'unsat' if at[1] else 'sat'
-                r = {'status': st, 'secs': 0.0, 'model': {}, 'encoding': 'const'}
-            elif kind == 'chain':
-                _, hyps, steps = at
-                lem = []
-                tot = 0.0
-                r = None
-                for (g, hn) in steps:
-                    r = prove(hyps + lem, g, hints=hn, timeout_ms=timeout_ms, seed=seed)
-                    tot += r['secs']
-                    if r['status'] != 'unsat' or not r.get('defined_ok', True):
-                        break
-                    lem.append(g)
-                r = dict(r)
-                r['secs'] = tot
-            elif kind == 'ident':
-                _, hyps, lhs, rhs = at
-                r = prove_identity(hyps, lhs, rhs, timeout_ms=timeout_ms, seed=seed)
-                if r['status'] != 'unsat':
-                    r2 = prove(hyps, lhs == rhs, timeout_ms=min(timeout_ms, 20000), seed=seed)
-                    if r2['status'] == 'unsat':
-                        r = r2
-            else:
-                _, hyps, goal, hints = at
-                r = prove(hyps, goal, hints=hints, timeout_ms=timeout_ms, seed=seed)
+            try:
+                r = _attempt(at, timeout_ms, seed)
+            except Exception as e:
+                r = {'status': 'unknown', 'secs': 0.0, 'model': None, 'encoding': f'error {type(e).__name__}: {str(e)[:120]}'}
             tried.append((fk, kind, r['status'], round(r['secs'], 2), r.get('encoding')))
             if r['status'] == 'unsat' and r.get('defined_ok', True):
                 return {'fam': fam, 'name': name, 'status': 'unsat', 'secs': time.time() - t0, 'frame': fk,
@@ -316,6 +324,7 @@ def run_ob(args):
                 u, v = F.point(m)
                 m['u'], m['v'] = u, v
                 best_sat = m
+            continue
     st = 'sat' if best_sat is not None else ('error' if err and not any(t[1] != 'trace-error' for t in tried) else 'unknown')
     return {'fam': fam, 'name': name, 'status': st, 'secs': time.time() - t0, 'model': best_sat, 'tried': tried,
             'error': err}
@@ -409,7 +418,9 @@ GRID_THETAS = {
     'frank+': [0.5, 3.0, 9.0, 18.2],
     'frank-': [-0.5, -3.0, -9.0, -18.2],
 }
-GRID_PTS = [(0.2, 0.7), (0.5, 0.5), (0.9, 0.15), (0.03, 0.4), (0.6, 0.97)]
+GRID_PTS = [(0.2, 0.7), (0.5, 0.5), (0.9, 0.15), (0.03, 0.4), (0.6, 0.97), (0.99, 0.99), (0.01, 0.01), (0.99, 0.01),
+            (1e-4, 1e-4), (1 - 1e-4, 1 - 1e-4), (1e-9, 0.5), (0.5, 1e-9)]
+EXTREME_ROWS = [(1e-4, 1e-4), (1e-9, 0.5), (0.5, 1e-9), (1 - 1e-9, 0.5), (1e-12, 1e-12), (1 - 1e-4, 1 - 1e-4)]
 
 
 def try_replay(fam, name, model):
@@ -565,6 +576,7 @@ def boundary_and_rows(fam, methods, tier):
                         if b.status != 'ok':
                             continue
                         ob, os_ = b.value[0], s_.value[0]
+                        mdl = ''
                         if isinstance(ob, SymReal) or isinstance(os_, SymReal):
                             eq = z3.simplify(tz(ob) == tz(os_))
                             if z3.is_true(eq):
@@ -573,9 +585,16 @@ def boundary_and_rows(fam, methods, tier):
                                 slv.add(tz(ob) != tz(os_))
                                 nq += 1
                                 ok = slv.check() == z3.unsat
+                                if not ok:
+                                    try:
+                                        from symx.core import model_value
+                                        m = slv.model()
+                                        mdl = repr({n: model_value(m, z3.Real(n)) for n in ('theta', 'u', 'v', 'u2', 'v2')})
+                                    except Exception:
+                                        mdl = ''
                         else:
                             ok = (ob == os_) or (ob != ob and os_ != os_)
-                        res.append(('rows', meth, (p0, p1), 'ok' if ok else 'FAIL', ''))
+                        res.append(('rows', meth, (p0, p1), 'ok' if ok else 'FAIL', mdl))
     return res, nq, time.time() - t0
 
 
@@ -672,8 +691,12 @@ def drive(pid, tier, seed, obs, methods, outside, fams=None):
 
 def replay_rows(fam, x):
     """concrete replay of a boundary / row-independence failure"""
-    kind, meth, pat, _, _ = x
-    for th in GRID_THETAS[fam]:
+    kind, meth, pat, _, mdl = x
+    mdl = eval(mdl) if isinstance(mdl, str) and mdl.startswith('{') else {}
+    thetas = ([mdl['theta']] if mdl.get('theta') is not None else []) + GRID_THETAS[fam]
+    alt_rows = [None] + EXTREME_ROWS
+    for th in thetas:
+      for alt in alt_rows:
         c = real_model(fam, th)
         try:
             with np.errstate(all='ignore'):
@@ -688,12 +711,15 @@ def replay_rows(fam, x):
                 else:
                     p0, p1 = eval(pat)
                     r0 = [0.37 if p0[0] == 's' else p0[0], 0.61 if p0[1] == 's' else p0[1]]
-                    r1 = [0.83 if p1[0] == 's' else p1[0], 0.22 if p1[1] == 's' else p1[1]]
+                    s1 = alt if alt is not None else ((mdl.get('u2', 0.83), mdl.get('v2', 0.22)) if th == mdl.get('theta') else (0.83, 0.22))
+                    if not (0 < s1[0] < 1 and 0 < s1[1] < 1):
+                        s1 = (0.83, 0.22)
+                    r1 = [s1[0] if p1[0] == 's' else p1[0], s1[1] if p1[1] == 's' else p1[1]]
                     a = getattr(c, meth)(np.array([r0, r1]))[0]
                     b = getattr(c, meth)(np.array([r0]))[0]
                     if not (a == b or (a != a and b != b)):
                         return {'fam': fam, 'name': 'rows', 'kind': kind, 'meth': meth, 'pat': pat, 'theta': th,
-                                'u': r0[0], 'v': r0[1], 'detail': f'{meth} row0 in batch {a} vs alone {b}'}
+                                'u': r0[0], 'v': r0[1], 'row1': r1, 'detail': f'{meth} row0={r0} in batch with {r1}: {a} vs alone {b}'}
         except Exception as e:
             return {'fam': fam, 'name': 'rows', 'kind': kind, 'meth': meth, 'pat': pat, 'theta': th, 'u': 0, 'v': 0,
                     'detail': f'raises {type(e).__name__}: {e}', 'raises': True}
